@@ -4,6 +4,7 @@ import (
 	"go/constant"
 	"fmt"
 	"go/token"
+	"go/types"
 	"sort"
 	"strings"
 
@@ -112,6 +113,12 @@ func (n *Normalizer) Value(v ssa.Value) (Lin, bool) {
 	case *ssa.Call:
 		cc := x.Common()
 		if b, ok := cc.Value.(*ssa.Builtin); ok && b.Name() == "len" {
+			// the length of a slice that grows by one element per participant in a given status is that status' count
+			if sp, isPhi := Resolve(cc.Args[0]).(*ssa.Phi); isPhi {
+				if _, isSlice := sp.Type().Underlying().(*types.Slice); isSlice {
+					return n.lenCounter(sp)
+				}
+			}
 			tag := quorumTag(Path(cc.Args[0]))
 			if tag == "" {
 				return n.fail("len of a non-quorum value %s", Path(cc.Args[0]))
@@ -428,7 +435,7 @@ func StatusCondsUnderA(fn *ssa.Function, a Assumption) []StatusCond {
 
 // statusGuard finds the unique status test whose equal-edge must be taken (after the loop
 // header phi) to reach the step instruction.
-func (n *Normalizer) statusGuard(p *ssa.Phi, step *ssa.BinOp) (string, bool) {
+func (n *Normalizer) statusGuard(p *ssa.Phi, step ssa.Instruction) (string, bool) {
 	var found []StatusCond
 	for _, sc := range StatusConds(n.Fn) {
 		if !strings.Contains(sc.Base, "next(range(") {
@@ -628,4 +635,76 @@ func MakeLin(c int, coef map[string]int) Lin {
 	}
 	l.Const = c
 	return l
+}
+
+
+// lenCounter: p is a slice that starts empty and is grown by append(p, oneElement) inside a counting loop, each append under
+// exactly one status test of the ranged quorum: len(p) is then the number of participants in that status.
+func (n *Normalizer) lenCounter(p *ssa.Phi) (Lin, bool) {
+	inCycle := map[ssa.Value]bool{}
+	var steps []*ssa.Call
+	var visit func(v ssa.Value) bool
+	visit = func(v ssa.Value) bool {
+		v = Resolve(v)
+		if inCycle[v] {
+			return true
+		}
+		switch x := v.(type) {
+		case *ssa.Phi:
+			inCycle[v] = true
+			for _, e := range FeasibleEdges(x) {
+				if !visit(e) {
+					return false
+				}
+			}
+			return true
+		case *ssa.Const:
+			return x.Value == nil
+		case *ssa.Call:
+			b, isB := x.Common().Value.(*ssa.Builtin)
+			if !isB || b.Name() != "append" || len(x.Common().Args) != 2 || !reaches(x.Common().Args[0], p) {
+				return false
+			}
+			// exactly one element appended: the variadic backing array has length 1
+			sl, isSl := x.Common().Args[1].(*ssa.Slice)
+			if !isSl {
+				return false
+			}
+			al, isAl := sl.X.(*ssa.Alloc)
+			if !isAl {
+				return false
+			}
+			pt, isPt := al.Type().Underlying().(*types.Pointer)
+			if !isPt {
+				return false
+			}
+			arr, isArr := pt.Elem().Underlying().(*types.Array)
+			if !isArr || arr.Len() != 1 {
+				return false
+			}
+			inCycle[v] = true
+			steps = append(steps, x)
+			return visit(x.Common().Args[0])
+		}
+		return false
+	}
+	if !visit(p) || len(steps) == 0 {
+		return n.fail("len of slice %s: not a per-status collection", p.Comment)
+	}
+	l := newLin()
+	seenK := map[string]bool{}
+	for _, st := range steps {
+		atom, ok := n.statusGuard(p, st)
+		if !ok {
+			return Lin{}, false
+		}
+		if seenK[atom] {
+			return n.fail("slice %s grows twice under the same status test %s", p.Comment, atom)
+		}
+		seenK[atom] = true
+		a := newLin()
+		a.Coef[atom] = 1
+		l = l.add(a, 1)
+	}
+	return l, true
 }
